@@ -12,7 +12,10 @@ ADVERSARIAL = ["'", '"', 'it\'s "q"', '<', '>', '&', ']]>', '<![CDATA[x]]>', '&a
                '<node id="n0"/>', '</data>', 'café', 'жук', '日本語', '\U0001F600',
                'a\U0001F600b', ' lead', 'trail ', '  both  ', '', ' ', '\n', 'a\nb', '\t', 'a\tb', 'line1\nline2\n',
                '007', '1e5', '-3', '0', 'None', 'true', 'False', 'NaN', '{"a": 1}', '[]', 'x' * 300, ' ',
-               ' ', 'á', '%s', '{x}', '$y', '\\', '\\n', '//', '#']
+               ' ', 'á', '%s', '{x}', '$y', '\\', '\\n', '//', '#',
+               # several lines with blanks / tabs next to the line breaks (indented YAML, a boot script)
+               'a: 1 \n  b: 2', 'x  \ny', ' \n ', '\n  indented', 'tab\t\nnext', 'write_files:\n  - path: /etc/motd\n    content: hi\n',
+               '#!/bin/bash\n  echo hi  \n\n   \nexit 0']
 INTS = [0, 1, -1, 7, -42, 2 ** 31 - 1, 2 ** 31, 2 ** 32 + 5, -2 ** 40, 2 ** 62]
 
 
